@@ -46,9 +46,14 @@ class Msg:
     """a wire message split into tokens (no data fields are used in session traffic here)"""
     __slots__ = ('raw', 'toks')
 
-    def __init__(self, raw):
+    def __init__(self, raw, data_tags=None):
+        """data_tags: {data tag: its Length tag} - with it, length-prefixed fields are split by their declared length (content may hold SOH and '=')"""
         self.raw = raw
         self.toks = []
+        if data_tags:
+            import fixref
+            self.toks = [(str(k), v) for k, v in fixref.tokenize(None, raw, data_tags)]
+            return
         for t in raw.split(SOH)[:-1]:
             k, _, v = t.partition('=')
             self.toks.append((k, v))
@@ -87,7 +92,7 @@ class Msg:
         return self.raw.replace(SOH, '|')
 
 
-def split_stream(s, begin):
+def split_stream(s, begin, data_tags=None):
     """split a byte stream into framed FIX messages using BodyLength; raises Violation when the stream is not a sequence of well-framed messages"""
     out = []
     i = 0
@@ -105,7 +110,7 @@ def split_stream(s, begin):
             raise Violation('outbound message truncated or BodyLength wrong at offset %d: %r' % (i, s[i:i + 80]))
         if int(raw[-4:-1]) != checksum(raw[:-7]):
             raise Violation('outbound message with wrong checksum: %r' % raw.replace(SOH, '|'))
-        out.append(Msg(raw))
+        out.append(Msg(raw, data_tags))
         i = end
     return out
 
@@ -113,8 +118,9 @@ def split_stream(s, begin):
 class Obs:
     """decoded answer of one sess command"""
 
-    def __init__(self, d, begin):
+    def __init__(self, d, begin, data_tags=None):
         self.d = d
+        self.data_tags = data_tags
         self.out_chunks = [unhx(x) for x in d.get('out', [])]
         self.out_raw = ''.join(self.out_chunks)
         self.proc = [unhx(x) for x in d.get('proc', [])]
@@ -135,19 +141,20 @@ class Obs:
     @property
     def msgs(self):
         if self._msgs is None:
-            self._msgs = split_stream(self.out_raw, self.begin)
+            self._msgs = split_stream(self.out_raw, self.begin, self.data_tags)
         return self._msgs
 
 
 class Sess:
-    def __init__(self, ex, schema='UTEST', slot=0):
+    def __init__(self, ex, schema='UTEST', slot=0, data_tags=None):
         self.ex, self.slot, self.schema = ex, slot, schema
+        self.data_tags = data_tags
         self.begin = BEGIN[schema]
         self.log = []
 
     def _call(self, line):
         self.log.append(line if len(line) < 300 else line[:300] + '...')
-        return Obs(self.ex.call(line), self.begin)
+        return Obs(self.ex.call(line), self.begin, self.data_tags)
 
     def new(self, role, sender, target, hb=30, persist='none', flags='-', sseq=0, rseq=0, pm='coro'):
         return self._call('sess new %d %s %s %s %s %s %d %s %s %d %d' % (self.slot, role, pm, self.schema, sender, target, hb, persist, flags or '-', sseq, rseq))
@@ -177,13 +184,28 @@ def wipe(ex):
     ex.call('sess wipe')
 
 
-def nos_spec(oid, ticks=0, data=None):
+def nos_spec(oid, ticks=0, data=None, header=''):
     """NewOrderSingle with the mandatory fields of FIX42UTEST and FIX44 (tokens for the executor's message builder);
     data: optional bytes for the EncodedTextLen/EncodedText pair (354/355), any byte values"""
     extra = ''
     if data is not None:
         extra = 'F 354 i:%d F 355 s:%s ' % (len(data), hx(data))
-    return 'M 44 F 11 s:%s F 21 c:49 F 55 s:%s F 54 c:49 F 60 t:%d F 40 c:49 %s;' % (hx(oid), hx('IBM'), ticks, extra)
+    return 'M 44 %sF 11 s:%s F 21 c:49 F 55 s:%s F 54 c:49 F 60 t:%d F 40 c:49 %s;' % (header, hx(oid), hx('IBM'), ticks, extra)
+
+
+SESSION_MANAGED = (8, 9, 35, 49, 56, 34, 43, 52, 122)
+
+
+def app_spec(spec):
+    """tokens for a generated message (fixref spec) handed to Session::send: the header fields the session manages itself and the CheckSum are left to it"""
+    import fixref
+    s2 = {'type': spec['type'], 'h': [it for it in spec['h'] if it['t'] not in SESSION_MANAGED], 'b': spec['b'], 't': [it for it in spec['t'] if it['t'] != 10]}
+    return fixref.spec_tokens(s2) + ' ;'
+
+
+def preset_header(seq, possdup=False, sending_ticks=None):
+    """header tokens of a message the application hands to send() with MsgSeqNum (and possibly PossDupFlag / SendingTime) already present"""
+    return 'H F 34 i:%d %s%sB ' % (seq, 'F 43 b:1 ' if possdup else '', '' if sending_ticks is None else 'F 52 t:%d ' % sending_ticks)
 
 
 def nos_toks(oid, tstext):
